@@ -97,6 +97,43 @@ func (c *scriptedClient) Stream(ctx context.Context, primaryURL string, nodeID u
 	return &scriptedStream{Reader: bytes.NewReader(c.payload), cluster: c.cluster}, nil
 }
 
+// reencodeLTX returns the transaction file with its header changed by fn and the trailer recomputed,
+// so that the file is well formed and only its claimed position differs.
+func reencodeLTX(data []byte, fn func(*ltx.Header)) []byte {
+	dec := ltx.NewDecoder(bytes.NewReader(data))
+	if err := dec.DecodeHeader(); err != nil {
+		core.Infra("offered: decode: %v", err)
+	}
+	hdr := dec.Header()
+	var out bytes.Buffer
+	enc := ltx.NewEncoder(&out)
+	nh := hdr
+	fn(&nh)
+	if err := enc.EncodeHeader(nh); err != nil {
+		core.Infra("offered: encode header: %v", err)
+	}
+	buf := make([]byte, hdr.PageSize)
+	for {
+		var ph ltx.PageHeader
+		if err := dec.DecodePage(&ph, buf); err == io.EOF {
+			break
+		} else if err != nil {
+			core.Infra("offered: decode page: %v", err)
+		}
+		if err := enc.EncodePage(ph, buf); err != nil {
+			core.Infra("offered: encode page: %v", err)
+		}
+	}
+	if err := dec.Close(); err != nil {
+		core.Infra("offered: decode close: %v", err)
+	}
+	enc.SetPostApplyChecksum(dec.Trailer().PostApplyChecksum)
+	if err := enc.Close(); err != nil {
+		core.Infra("offered: encode close: %v", err)
+	}
+	return out.Bytes()
+}
+
 func frameLTX(buf *bytes.Buffer, name string, data []byte) {
 	_ = litefs.WriteStreamFrame(buf, &litefs.LTXStreamFrame{Name: name})
 	cw := chunk.NewWriter(buf)
@@ -166,6 +203,10 @@ func OfferedFiles(rep *core.Report, args *core.Args) {
 		{"truncated-body", f[2][:len(f[2])-37]},
 		{"corrupt-body", corrupt},
 		{"garbage", bytes.Repeat([]byte{0xA7}, 300)},
+		// exactly one coordinate of the position is wrong: the right pre-apply checksum under a
+		// TXID that skips ahead, and (the fork file above) the right TXID under a foreign checksum
+		{"right-checksum-txid-5-at-2", reencodeLTX(f[2], func(h *ltx.Header) { h.MinTXID, h.MaxTXID = 5, 5 })},
+		{"right-checksum-txid-2-at-2", reencodeLTX(f[2], func(h *ltx.Header) { h.MinTXID, h.MaxTXID = 2, 2 })},
 	}
 	for _, b := range bad {
 		if b.data == nil {
@@ -248,6 +289,11 @@ func OfferedFiles(rep *core.Report, args *core.Args) {
 		srv.Serve()
 		if _, err := commitN(prim, l, 2, 0); err != nil {
 			core.Infra("offered: primary chain: %v", err)
+		}
+		// the forwarding endpoint only listens to the holder of the halt lock: take it first, so
+		// that the offered file reaches the position check rather than the holder check
+		if _, herr := lhttp.NewClient().AcquireHaltLock(context.Background(), srv.URL(), 12345, "db", 999); herr != nil {
+			core.Infra("offered: halt lock: %v", herr)
 		}
 		pbefore := facts(prim, l)
 		cerr := lhttp.NewClient().Commit(context.Background(), srv.URL(), 12345, "db", 999, bytes.NewReader(b.data))
